@@ -444,6 +444,37 @@ def key_cases(chk, n):
     return cases
 
 
+# ---------------------------------------------------------------------- names a generated module imports or defines
+IMPORTED_NAMES = ["IntString", "FloatString", "BooleanString", "IsoDateString", "IsoTimeString", "IsoDatetimeString",
+                  "Optional", "List", "Dict", "Any", "Union", "Literal", "BaseModel", "Field", "SQLModel", "attr", "field", "dataclass",
+                  "optional", "convert_strings", "ClassType", "datetime", "date", "time", "Config", "typing", "pydantic", "attrs",
+                  "dataclasses", "json_to_models", "annotations", "METADATA_FIELD_NAME"]
+
+
+def reserved_name_cases(chk, n):
+    """A key named after something the emitted module imports / uses (as written and in snake case), once holding an object (class
+    name) and once a scalar (field name), in a module made to import as much as it can: every string pseudo-type incl. the ones
+    --datetime registers after import time, Optional, List, Dict, Literal, the framework's own names."""
+    import inflection
+    rng = chk.rng
+    combos = [(nm, var, obj, fw) for nm in IMPORTED_NAMES for var in ("asis", "snake") for obj in (True, False) for fw in FRAMEWORKS]
+    rng.shuffle(combos)
+    cases = []
+    for nm, var, obj, fw in combos[:n]:
+        key = nm if var == "asis" else inflection.underscore(nm)
+        rich = {"zz_i": "1", "zz_f": "1.5", "zz_b": "true", "zz_d": "2020-01-02", "zz_t": "10:20:30", "zz_dt": "2020-01-02T10:20:30",
+                "zz_l": ["a", "b"], "zz_m": {"k1": 1, "k2": 2}, "zz_o": None}
+        val = {"inner_x": 1, "zz_d": "1999-12-31", "zz_t": "23:59"} if obj else rng.choice([1, "s", "2020-01-02", [1]])
+        samples = [dict(rich, **{key: val}), dict({k: v for k, v in rich.items() if k != "zz_o"}, **{key: val})]
+        kw = {}
+        if fw in ("attrs", "dataclasses"):
+            kw["meta"] = rng.random() < 0.5
+            kw["post_init_converters"] = rng.random() < 0.5
+        cases.append(dict(roots=[("Root", samples)], envspec={"datetime": True, "dkr": [r"k\d"]}, policy=DR.POLICIES[1], fw=fw,
+                          layout=rng.choice(["flat", "nested"]), kw=kw, key=key))
+    return cases
+
+
 # ---------------------------------------------------------------------- C12: tree-shaped graphs
 def tree_cases(chk, n):
     rng = chk.rng
@@ -462,6 +493,12 @@ def tree_cases(chk, n):
 PSEUDO_LEAVES = {"IntString": ["1", "-7", "12"], "FloatString": ["1.5", "12", "1", "1.0"], "BooleanString": ["true", "False", "TRUE"],
                  "IsoDateString": ["2020-01-02", "1999-12-31"], "IsoTimeString": ["10:20:30", "23:59"],
                  "IsoDatetimeString": ["2020-01-02T10:20:30", "2020-01-02T10:20:30+01:00"]}
+
+
+# near misses: decorated spellings of what the parsers accept (padding, sign, exponent, underscores, non-ASCII digits, nan/inf).
+# Whatever detection makes of them, detection and conversion must agree (the model must construct from its own samples).
+NEAR = ["true ", " TRUE", "false\n", " 1", "1 ", "\t2.5", "1_000", "+1", "1e3", "\u0661\u0662", "2020-01-02 ", " 10:20:30",
+        "2020-01-02T10:20:30 ", "NaN", "inf", "-0", "True\u00a0", "0x10", "1.", ".5"]
 
 
 def path_value(rng, path, leaves):
@@ -485,8 +522,10 @@ def converter_cases(chk, n):
         samples = [{}, {}, {}]
         for f in range(nf):
             name = "f%d" % f
-            ptype = rng.choice(list(PSEUDO_LEAVES) + ["plain", "int"])
+            ptype = rng.choice(list(PSEUDO_LEAVES) + ["plain", "int", "near", "near"])
             leaves = PSEUDO_LEAVES.get(ptype) or (["foo", "bar"] if ptype == "plain" else [3, 4])
+            if ptype == "near":
+                leaves = [rng.choice(NEAR)] if rng.random() < 0.6 else rng.sample(NEAR, 2)
             path = [rng.choice("LD") for _ in range(rng.choice([0, 0, 1, 1, 2, 3]))]
             optional = rng.random() < 0.4
             for j, s in enumerate(samples):
@@ -603,7 +642,8 @@ CHECK_DEADLOCK FALSE
 KIND_WORDS = {"lower": ["name", "value", "item"], "cap": ["Name", "Value"], "upper": ["NAME", "ID"],
               "keyword": ["class", "None", "True", "import", "async", "def"], "builtin": ["list", "dict", "id", "type", "print", "max"],
               "typing": ["Optional", "List", "Any", "Union", "Literal", "Dict"],
-              "fwimport": ["Field", "BaseModel", "field", "dataclass", "attr", "optional", "SQLModel", "convert_strings", "ClassType"],
+              "fwimport": ["Field", "BaseModel", "field", "dataclass", "attr", "optional", "SQLModel", "convert_strings", "ClassType",
+                           "IntString", "FloatString", "BooleanString", "IsoDateString", "IsoTimeString", "IsoDatetimeString", "iso_date_string"],
               "pydattr": ["json", "copy", "schema_json", "fields", "config", "parse_obj", "validate", "construct"],
               "nonascii": ["état", "имя", "größe"], "digit": ["1", "42", "0"]}
 
@@ -633,6 +673,18 @@ def key_shape_cases(chk, maxseg, limit):
         kw = {}
         if fw in ("attrs", "dataclasses") and rng.random() < 0.5:
             kw["meta"] = True
-        cases.append(dict(roots=[("Root", samples)], envspec={}, policy=DR.POLICIES[1], fw=fw, layout=rng.choice(["flat", "nested"]), kw=kw,
+        envspec = {}
+        if "String" in key or "string" in key or rng.random() < 0.2:
+            # make the module import the string pseudo-types (also the ones --datetime registers later than import time)
+            folded = key.replace("_", "").replace("-", "").lower()
+            mine = [v[0] for n_, v in PSEUDO_LEAVES.items() if n_.lower() in folded]      # the type the key is named after
+            for s_ in samples:
+                s_["zz_when"] = rng.choice(["2020-01-02", "10:20:30", "2020-01-02T10:20:30"])
+                s_["zz_num"] = rng.choice(["1", "1.5", "true"])
+                if mine:
+                    s_["zz_mine"] = mine[0]
+            envspec = {"datetime": True}
+            fw = rng.choice(["attrs", "dataclasses", fw])
+        cases.append(dict(roots=[("Root", samples)], envspec=envspec, policy=DR.POLICIES[1], fw=fw, layout=rng.choice(["flat", "nested"]), kw=kw,
                           shape=shape, key=key))
     return cases, len(shapes)
